@@ -202,6 +202,25 @@ fn snippet(rng: &mut Rng, focus: &str, m: &Mix, out: &mut Vec<Op>) {
     let l = |i: u16| RootRef { g: false, i };
     let gl = |i: u16| RootRef { g: true, i };
     match focus {
+        // dense survivors: every line of a block keeps a live object next to dead ones
+        "C07" | "C08" | "C31" | "C34" if focus != "C34" || rng.chance(1, 3) => {
+            let n = rng.range(200, 700) as u16;
+            let keep_every = rng.range(2, 4) as u16;
+            let holder = gl(rng.below(NG) as u16);
+            out.push(Op::Alloc { size: 64 + 8 * 64, align: 8, offset: 0, sem: SEM_DEFAULT, nrefs: 64, kind: 0, root: holder });
+            for j in 0..n {
+                out.push(Op::Alloc { size: *rng.pick(&[40usize, 48, 64, 96]), align: 8, offset: 0, sem: SEM_DEFAULT, nrefs: 1, kind: 0, root: l(15) });
+                if j % keep_every == 0 {
+                    // (the holder has 64 slots: later survivors replace earlier ones, which die)
+                    for f in 0..2u16 {
+                        out.push(Op::Write { src: holder, field: (j / keep_every * 2 + f) % 64, val: Some(l(15)), mode: 1 });
+                    }
+                }
+            }
+            out.push(Op::Drop { root: l(15) });
+            out.push(Op::Gc { force: true, exhaustive: true });
+            out.push(Op::Probe);
+        }
         // several chunk regions in one space, then free the oldest region (the tail of the list)
         "C28" | "C29" => {
             let n = rng.range(4, 12) as u16;
@@ -481,6 +500,7 @@ pub fn profile(focus: &str) -> Profile {
         }
         "C07" | "C08" | "C31" => {
             plans = collecting();
+            snippet_pct = 3;
             m.probe = 3;
             m.special_sem_pct = 25;
             m.big_pct = 10;
@@ -702,7 +722,7 @@ fn gen_comp_spec(seed: u64, focus: &str, tier: &str) -> RunSpec {
             let nthreads = rng.range(2, 4) as usize;
             for _ in 0..nthreads {
                 let n = rng.range(20, if big { 600 } else { 200 }) as usize;
-                programs.push((0..n).map(|_| c(wl.range(1, 10) as u8, wl.below(nfields), wl.next_u64(), 0)).collect());
+                programs.push((0..n).map(|_| c(if wl.chance(1, 5) { wl.range(11, 12) as u8 } else { wl.range(1, 10) as u8 }, wl.below(nfields), wl.next_u64(), 0)).collect());
             }
             shape = "side metadata: neighbouring fields accessed atomically by several threads";
         }
@@ -747,7 +767,7 @@ fn gen_comp_spec(seed: u64, focus: &str, tier: &str) -> RunSpec {
             let nthreads = rng.range(2, 6) as usize;
             for _ in 0..nthreads {
                 let n = rng.range(20, if big { 600 } else { 200 }) as usize;
-                programs.push((0..n).map(|_| c(wl.range(1, 10) as u8, wl.below(64), wl.next_u64(), 0)).collect());
+                programs.push((0..n).map(|_| c(if wl.chance(1, 5) { wl.range(11, 12) as u8 } else { wl.range(1, 10) as u8 }, wl.below(64), wl.next_u64(), 0)).collect());
             }
             shape = "header metadata: bit fields sharing bytes accessed by several threads";
         }
@@ -809,7 +829,14 @@ pub fn gen_spec(seed: u64, focus: &str, tier: &str) -> RunSpec {
     let mut rng = Rng::new(seed ^ 0x5151_0000_0000_0000);
     let mut wl = rng.fork(1);
     let mut sr = rng.fork(2);
-    let prof = profile(focus);
+    // The stop / resume bracket and the bucket protocol of the InitialMark and FinalMark pauses
+    // are only reached by allocation-driven concurrent cycles: one run in six of the scheduler
+    // protocol checks uses that workload.
+    let conc_cycles = matches!(focus, "C11" | "C15" | "C13") && rng.chance(1, 6);
+    let mut prof = profile(if conc_cycles { "C12" } else { focus });
+    if conc_cycles {
+        prof.shape = "concurrent cycles (initial / final mark brackets)";
+    }
     let mut plan_choices: Vec<&str> = prof.plans.clone();
     if cfg!(feature = "var_a") {
         // Compressor requires reference == object start
@@ -823,18 +850,19 @@ pub fn gen_spec(seed: u64, focus: &str, tier: &str) -> RunSpec {
         "C17" | "C18" | "C14" | "C15" => rng.range(2, 8),
         _ => rng.range(1, 8),
     } as usize;
-    let nmut = match focus {
+    let fe = if conc_cycles { "C12" } else { focus };
+    let nmut = match fe {
         "C02" | "C11" | "C18" | "C12" => rng.range(2, 4),
         "C37" | "C09" => rng.range(1, 2),
         _ => rng.range(1, 4),
     } as usize;
-    let heap_mb = match focus {
+    let heap_mb = match fe {
         "C10" | "C09" | "C34" => *rng.pick(&[2usize, 4, 8]),
         "C29" | "C28" => *rng.pick(&[16usize, 32, 48]),
         "C12" => *rng.pick(&[2usize, 2, 4]),
         _ => *rng.pick(&[4usize, 8, 16, 32]),
     };
-    let nops = match (tier, focus) {
+    let nops = match (tier, fe) {
         ("quick", "C34") | ("quick", "C09") | ("quick", "C12") => rng.range(150, 500),
         ("quick", _) => rng.range(50, 250),
         (_, "C34") | (_, "C09") => rng.range(400, 2500),
@@ -938,7 +966,7 @@ pub fn gen_spec(seed: u64, focus: &str, tier: &str) -> RunSpec {
         // A stress GC under NoGC reaches `unreachable!("GC triggered in nogc")` by design.
         cfg.stress_factor = None;
     }
-    let mut programs: Vec<Vec<Op>> = (0..nmut).map(|_| gen_program(&mut wl, nops, focus, &prof)).collect();
+    let mut programs: Vec<Vec<Op>> = (0..nmut).map(|_| gen_program(&mut wl, nops, fe, &prof)).collect();
     if focus == "C09" && rng.chance(4, 5) {
         cfg.reclaim_cycles = true;
         cfg.heap_bytes = *rng.pick(&[4usize, 8, 16]) << 20;
